@@ -392,8 +392,15 @@ def install_walker_env(ctx, eng, nsources=1):
         tie(st, p)
         m = OpaqueV("std::fs::Metadata", "stat:" + repr(p), {"stat_of": p})
         ioerr = lambda kind: AggV("Result", 1, [OpaqueV("std::io::Error", "stat_error_%s_%d" % (kind, next(eng.fresh_ids)), {"kind": kind})], "Err")
+        absent = [z3.Not(wfact("exists", p))]
+        notdir = []
+        if isinstance(p, tuple) and p[0] == "join" and p[2] == ("str", ".gitignore"):
+            # stat(<base>/.gitignore) below a base that is not a directory answers ENOTDIR, not ENOENT: still "there is no such file"
+            base_nondir = z3.And(wfact("exists", p[1]), z3.Not(wfact("is_dir", p[1])))
+            notdir = [Outcome(ioerr("NotADirectory"), absent + [base_nondir], events=[Event("Path::metadata", [p], "notdir")])]
+            absent = absent + [z3.Not(base_nondir)]
         return [Outcome(ok(m), [wfact("exists", p)], events=[Event("Path::metadata", [p], "ok")]),
-                Outcome(ioerr("NotFound"), [z3.Not(wfact("exists", p))], events=[Event("Path::metadata", [p], "absent")]),
+                Outcome(ioerr("NotFound"), absent, events=[Event("Path::metadata", [p], "absent")]), *notdir,
                 *([] if st.ghost.get("nsources", 1) > 1 else [Outcome(ioerr("Other"), events=[Event("Path::metadata", [p], "err")])])]
     front(r"^(std::path::)?Path::metadata$", s_stat)
     front(r"^(std::path::)?Path::is_symlink$", s_exists("is_symlink"))
@@ -521,7 +528,14 @@ def _walker(ctx, src_exprs):
         if p.ghost.get("under_root_link"):
             ctx.lemma(eng, "C02/C08: without --dereference nothing beneath a source that is itself a symbolic link is walked (the link is the entry to copy)",
                       p.pc, cv["dereference"].t, key="walker:root-symlink-followed")
-        # C07/C14: GitignoreBuilder::add opens and reads the file: a FIFO (or device) of that name must not be opened
+        # C14/C17/C13: a source that is not a directory (a file, a FIFO, a device, a link to a file under -L) has no .gitignore: ENOTDIR from the
+        # stat of <source>/.gitignore means "no ignore file", the copy goes ahead with an empty matcher
+        for i in [i for i, x in enumerate(ev) if x.name == "Path::metadata" and x.ret == "notdir"]:
+            nm_ = "C13/C14/C17: with --gitignore a source that is not a directory is still copied (ENOTDIR from the stat of <source>/.gitignore means 'no ignore file', not a failure)"
+            if any(x.name == "gi.build" for x in ev[i + 1:]):
+                ctx.passed(nm_)
+            else:
+                ctx.fail(nm_, str(names[-6:]), key="walker:gitignore-enotdir")
         for e in [x for x in ev if x.name == "gi.add"]:
             ctx.lemma(eng, "C07/C14: the ignore file is opened only if it is a regular file (a FIFO named .gitignore would block the walk for ever)",
                       p.pc, fs_fact("is_file", repr(e.args[0])), key="walker:gitignore-fifo-opened")
